@@ -112,6 +112,27 @@ theorem c14_same (s : App) (v : Val) (p : Nat) (h : powerOfInt (p : Int) = s.las
     s.setPOAPowerVal v (p : Int) = .error Err.plain := by
   simp [setPOAPowerVal, h]
 
+/-- **C14e** (the unit conversion itself): the voting power of a request of `p` base units is the whole number of
+    millions in `p` — never rounded up, never off by one: `power · 10⁶ ≤ p < (power + 1) · 10⁶` — it is monotone in
+    `p`, and exact multiples convert exactly -/
+theorem c14_floor (p : Nat) :
+    powerOfInt (p : Int) * 1000000 ≤ (p : Int) ∧ (p : Int) < (powerOfInt (p : Int) + 1) * 1000000 := by
+  rw [powerOfInt_nat]
+  have e : PR = 1000000 := rfl
+  rw [e]
+  have := Nat.div_add_mod p 1000000
+  have hm := Nat.mod_lt p (by decide : 1000000 > 0)
+  omega
+
+theorem c14_monotone (p q : Nat) (h : p ≤ q) : powerOfInt (p : Int) ≤ powerOfInt (q : Int) := by
+  rw [powerOfInt_nat, powerOfInt_nat]
+  exact Int.ofNat_le.mpr (Nat.div_le_div_right h)
+
+theorem c14_multiples (k : Nat) : powerOfInt ((k * 1000000 : Nat) : Int) = k := by
+  rw [powerOfInt_nat]
+  have e : PR = 1000000 := rfl
+  rw [e, Nat.mul_div_cancel k (by decide)]
+
 /-- non-vacuity: 10 → 12.345678 units on a genesis validator: tokens 12345678, power 12 -/
 def demo : App :=
   match App.initChain { maxVals := 10, unbond := 100, window := 4, minSigned := 2, jailNs := 5, slashDown := 0, minComm := 0,
